@@ -163,7 +163,7 @@ func ruleU2(c *Ctx) {
 
 func ruleU3(c *Ctx) {
 	m := c.M
-	c.rule("U3", "not started: the test stub.runtime == nil dominates the RPC in stub.UpdateContainers and its true branch returns ErrNoService", 1)
+	c.rule("U3", "not started: the test stub.runtime == nil dominates the RPC in stub.UpdateContainers and its true branch returns ErrNoService; the function does not take the stub lock (held by Start throughout)", 2)
 	su := m.method(pkgStub, "stub", "UpdateContainers")
 	var rpc ssa.CallInstruction
 	for _, ci := range calls(su) {
@@ -204,4 +204,25 @@ func ruleU3(c *Ctx) {
 		}
 	}
 	c.ok("U3", "stub.UpdateContainers", su.Pos(), bad == "", "an unstarted stub reports ErrNoService instead of calling", bad)
+	// the answer must not wait for the stub lock, which Start holds for its whole duration
+	la := allLocks(c)
+	locks := ""
+	for _, a := range la.acquired[su] {
+		if a.ID.Name == "stub.Mutex" {
+			locks = c.pos(a.At.Pos())
+		}
+	}
+	for _, ci := range calls(su) {
+		if g := m.callee(ci.Common()); g != nil && la.scope[g] {
+			if eff := la.summarise(g); eff != nil {
+				for _, a := range la.acquired[g] {
+					if a.ID.Name == "stub.Mutex" {
+						locks = c.pos(ci.Pos())
+					}
+				}
+			}
+		}
+	}
+	c.ok("U3", "stub.UpdateContainers/no-lock", su.Pos(), locks == "", "UpdateContainers answers without waiting for the stub lock",
+		"UpdateContainers takes the stub lock (at "+locks+"), which Start holds while it dials, registers and waits to be configured: a stub that has not (yet) been started blocks instead of reporting that it has no service")
 }
